@@ -67,18 +67,19 @@ theorem OpsLexEV.guard (h : OpsLexEV ops₁ ops₂ inp J G) (s : String) :
 
 /-- **`Parser::parse` in pure lexer mode, until the first error, side by side with a second sink, the
 per-operation comparison being known for valid lexemes only.** -/
-theorem parse_lexE_args {cert : Cert} {rcert : RCert} {s : String} (h : OpsLexEV ops₁ ops₂ inp J G)
-    (ht : ArgsTable tbl cert rcert) (hs : T2 s) (hf : ArgsFresh s ops₁ inp) (last : Bool) (p : Parser κ)
-    (hp : PLex J p) (hpa : PArgs tbl cert rcert inp.length p) :
+theorem parse_lexE_args {cert : Cert} {rcert : RCert} {s : String} {Dk : κ → Prop} (h : OpsLexEV ops₁ ops₂ inp J G)
+    (ht : ArgsTable tbl cert rcert) (hs : T2 s) (hne : s ≠ rawSite) (hf : ArgsFresh s ops₁ inp Dk) (last : Bool)
+    (p : Parser κ) (hp : PLex J p) (hpa : PArgs tbl cert rcert inp.length p) (hDk : Dk p.x.sink) :
     (Parser.parse ⟨tbl, cfg, ops₁⟩ inp last p = Parser.parse ⟨tbl, cfg, ops₂⟩ inp last p ∧
       (∀ k, (Parser.parse ⟨tbl, cfg, ops₁⟩ inp last p).2 = .ok k →
         PLex J (Parser.parse ⟨tbl, cfg, ops₁⟩ inp last p).1 ∧ k ≤ inp.length ∧
+        Dk (Parser.parse ⟨tbl, cfg, ops₁⟩ inp last p).1.x.sink ∧
         (last = false → PArgs tbl cert rcert (inp.length - k) (Parser.parse ⟨tbl, cfg, ops₁⟩ inp last p).1))) ∨
     ∃ e, G e ∧ (Parser.parse ⟨tbl, cfg, ops₁⟩ inp last p).2 = .error (RelE.parseErr e) := by
-  obtain ⟨g1, g2, g3, g4⟩ := parse_args_valid (cfg := cfg) ht.wf ht.cert ht.rcert ht.emits hs hf last p hpa
+  obtain ⟨g1, g2, g3, g4⟩ := parse_args_valid (cfg := cfg) ht.wf ht.cert ht.rcert ht.emits hs hne hf last p hpa hDk
   rcases parse_lexE (tbl := tbl) (cfg := cfg) (h.guard s) ht.emits last p hp with ⟨he, hpl⟩ | ⟨e, hGe, he⟩
   · rw [g1] at he hpl
-    exact Or.inl ⟨he, fun k hk => ⟨hpl k hk, (g4 k hk).1, (g4 k hk).2⟩⟩
+    exact Or.inl ⟨he, fun k hk => ⟨hpl k hk, (g4 k hk).1, (g4 k hk).2.1, (g4 k hk).2.2⟩⟩
   · rw [g1] at he
     rcases hGe with hG | hF
     · exact Or.inr ⟨e, hG, he⟩
@@ -93,7 +94,7 @@ end
 
 section
 variable {γ : Type} {w : World γ} {c2 : Controller γ} {J : Disp γ → Prop} {G : Err → Prop}
-  {cert : Cert} {rcert : RCert} {s0 : String}
+  {cert : Cert} {rcert : RCert} {s0 : String} {Dk : Disp γ → Prop}
 
 local notation "w2" => Chunk.R.World.withCtl w c2
 
@@ -106,11 +107,11 @@ structure CtlLexEV (w : World γ) (c2 : Controller γ) (J : Disp γ → Prop) (G
   initial : ∀ g, w.ctl.initialFlags g = c2.initialFlags g
 
 /-- lexer mode with the sink invariant, and the argument-validity invariant -/
-def SLexEA (w : World γ) (cert : Cert) (rcert : RCert) (J : Disp γ → Prop) (s : Stream γ) : Prop :=
-  PLex J s.parser ∧ SArgs w cert rcert s
+def SLexEA (w : World γ) (cert : Cert) (rcert : RCert) (J Dk : Disp γ → Prop) (s : Stream γ) : Prop :=
+  PLex J s.parser ∧ SArgs w cert rcert Dk s
 
-variable (h : CtlLexEV w c2 J G) (ht : ArgsTable w.tbl cert rcert) (hs0 : T2 s0)
-  (hf : ∀ inp, ArgsFresh s0 (dispOps w.ctl) inp)
+variable (h : CtlLexEV w c2 J G) (ht : ArgsTable w.tbl cert rcert) (hs0 : T2 s0) (hne : s0 ≠ rawSite)
+  (hf : ArgsCtl w s0 Dk)
 include h
 
 theorem bail_eqV : Stream.bail w = Stream.bail (w2) := by
@@ -129,14 +130,14 @@ theorem keepTail_eqV : Stream.keepTail w = Stream.keepTail (w2) := by
   unfold Stream.keepTail
   rw [bail_eqV h]
 
-include ht hs0 hf
+include ht hs0 hne hf
 
 /-- **`TransformStream::write`** -/
-theorem write_lexEA (s : Stream γ) (data : Bytes) (hs : SLexEA w cert rcert J s) :
-    (s.write w data = s.write (w2) data ∧ ((s.write w data).2 = .ok () → SLexEA w cert rcert J (s.write w data).1)) ∨
+theorem write_lexEA (s : Stream γ) (data : Bytes) (hs : SLexEA w cert rcert J Dk s) :
+    (s.write w data = s.write (w2) data ∧ ((s.write w data).2 = .ok () → SLexEA w cert rcert J Dk (s.write w data).1)) ∨
     ∃ e, G e ∧ (s.write w data).2 = .error (RelE.parseErr e) := by
   obtain ⟨hpl0, hsa⟩ := hs
-  obtain ⟨wa1, wa2⟩ := Stream.write_sargs ht hs0 hf s data hsa
+  obtain ⟨wa1, wa2⟩ := Stream.write_sargs ht hs0 hne hf s data hsa
   revert wa2
   unfold Stream.write
   rw [← chunkFor_eqV h, ← keepTail_eqV h, ← bail_eqV h]
@@ -145,11 +146,11 @@ theorem write_lexEA (s : Stream γ) (data : Bytes) (hs : SLexEA w cert rcert J s
   | inr sc =>
     obtain ⟨s1, chunk⟩ := sc
     obtain ⟨_, c2', _, _, _⟩ := Stream.chunkFor_inr hcf
-    obtain ⟨hpa, _⟩ := wa1 s1 chunk hcf
+    obtain ⟨hpa, hdk, _⟩ := wa1 s1 chunk hcf
     dsimp only
     intro wa2
-    rcases parse_lexE_args (tbl := w.tbl) (cfg := w.tags) (h.ops chunk) ht hs0 (hf chunk) false s1.parser
-        (by rw [c2']; exact hpl0) hpa with ⟨he, hpl⟩ | ⟨e, hG, he⟩
+    rcases parse_lexE_args (tbl := w.tbl) (cfg := w.tags) (h.ops chunk) ht hs0 hne (hf.fresh chunk) false s1.parser
+        (by rw [c2']; exact hpl0) hpa hdk with ⟨he, hpl⟩ | ⟨e, hG, he⟩
     · have he' : s1.parser.parse w.env chunk false = s1.parser.parse (w2).env chunk false := he
       rw [← he']
       refine Or.inl ⟨rfl, ?_⟩
@@ -179,15 +180,15 @@ theorem write_lexEA (s : Stream γ) (data : Bytes) (hs : SLexEA w cert rcert J s
       rw [he']
 
 /-- **`TransformStream::end`** -/
-theorem end_lexEA (s : Stream γ) (hs : SLexEA w cert rcert J s) :
+theorem end_lexEA (s : Stream γ) (hs : SLexEA w cert rcert J Dk s) :
     s.end w = s.end (w2) ∨ ∃ e', GE G e' ∧ (s.end w).2 = .error e' := by
   obtain ⟨hpl0, hsa⟩ := hs
-  obtain ⟨hpa, _⟩ := Stream.end_sargs ht hs0 hf s hsa
+  obtain ⟨hpa, hdk, _⟩ := Stream.end_sargs ht hs0 hne hf s hsa
   unfold Stream.end
   rw [← bail_eqV h]
   dsimp only
-  rcases parse_lexE_args (tbl := w.tbl) (cfg := w.tags) (h.ops (if s.hasBuffered then s.buf.data else [])) ht hs0 (hf _)
-      true s.parser hpl0 hpa with ⟨he, hpl⟩ | ⟨e, hG, he⟩
+  rcases parse_lexE_args (tbl := w.tbl) (cfg := w.tags) (h.ops (if s.hasBuffered then s.buf.data else [])) ht hs0 hne (hf.fresh _)
+      true s.parser hpl0 hpa hdk with ⟨he, hpl⟩ | ⟨e, hG, he⟩
   · have he' : s.parser.parse w.env (if s.hasBuffered then s.buf.data else []) true =
         s.parser.parse (w2).env (if s.hasBuffered then s.buf.data else []) true := he
     rw [← he']
@@ -215,20 +216,20 @@ theorem end_lexEA (s : Stream γ) (hs : SLexEA w cert rcert J s) :
     exact ⟨_, ⟨e, hG, Or.inr rfl⟩, rfl⟩
 
 /-- poisoned, or in lexer mode with both invariants -/
-def RLexEA (w : World γ) (cert : Cert) (rcert : RCert) (J : Disp γ → Prop) (r : Rewriter γ) : Prop :=
-  r.poisoned = true ∨ SLexEA w cert rcert J r.stream
+def RLexEA (w : World γ) (cert : Cert) (rcert : RCert) (J Dk : Disp γ → Prop) (r : Rewriter γ) : Prop :=
+  r.poisoned = true ∨ SLexEA w cert rcert J Dk r.stream
 
 /-- **`HtmlRewriter::write`** -/
-theorem rewriter_write_lexEA (r : Rewriter γ) (data : Bytes) (hr : RLexEA w cert rcert J r) :
-    (r.write w data = r.write (w2) data ∧ RLexEA w cert rcert J (r.write w data).1) ∨
+theorem rewriter_write_lexEA (r : Rewriter γ) (data : Bytes) (hr : RLexEA w cert rcert J Dk r) :
+    (r.write w data = r.write (w2) data ∧ RLexEA w cert rcert J Dk (r.write w data).1) ∨
     ((r.write w data).1.poisoned = true ∧ ∃ e', GE G e' ∧ (r.write w data).2 = .err e') := by
   unfold Rewriter.write
   by_cases hp : r.poisoned = true
   · rw [if_pos hp, if_pos hp]
     exact Or.inl ⟨rfl, Or.inl hp⟩
   · rw [if_neg hp, if_neg hp]
-    have hs : SLexEA w cert rcert J r.stream := hr.resolve_left hp
-    rcases write_lexEA h ht hs0 hf r.stream data hs with ⟨he, hok⟩ | ⟨e, hG, he⟩
+    have hs : SLexEA w cert rcert J Dk r.stream := hr.resolve_left hp
+    rcases write_lexEA h ht hs0 hne hf r.stream data hs with ⟨he, hok⟩ | ⟨e, hG, he⟩
     · rw [← he]
       refine Or.inl ⟨rfl, ?_⟩
       dsimp only
@@ -241,15 +242,15 @@ theorem rewriter_write_lexEA (r : Rewriter γ) (data : Bytes) (hr : RLexEA w cer
       exact ⟨rfl, _, ⟨e, hG, Or.inr rfl⟩, rfl⟩
 
 /-- **`write*`** -/
-theorem writeAll_lexEA (cs : List Bytes) (r : Rewriter γ) (hr : RLexEA w cert rcert J r) :
-    ((Thm.C01.writeAll w r cs = Thm.C01.writeAll (w2) r cs ∧ RLexEA w cert rcert J (Thm.C01.writeAll w r cs).1) ∨
+theorem writeAll_lexEA (cs : List Bytes) (r : Rewriter γ) (hr : RLexEA w cert rcert J Dk r) :
+    ((Thm.C01.writeAll w r cs = Thm.C01.writeAll (w2) r cs ∧ RLexEA w cert rcert J Dk (Thm.C01.writeAll w r cs).1) ∨
       (Thm.C01.writeAll w r cs).1.poisoned = true) ∧
     ∀ x ∈ (Thm.C01.writeAll w r cs).2, CallE G (Thm.C01.writeAll (w2) r cs).2 x := by
   induction cs generalizing r with
   | nil => exact ⟨Or.inl ⟨rfl, hr⟩, fun x hx => by cases hx⟩
   | cons c cs ih =>
     simp only [Thm.C01.writeAll]
-    rcases rewriter_write_lexEA h ht hs0 hf r c hr with ⟨he, hr'⟩ | ⟨hp, e', hGE, he⟩
+    rcases rewriter_write_lexEA h ht hs0 hne hf r c hr with ⟨he, hr'⟩ | ⟨hp, e', hGE, he⟩
     · rw [← he]
       obtain ⟨i1, i2⟩ := ih _ hr'
       refine ⟨?_, fun x hx => ?_⟩
@@ -269,7 +270,7 @@ theorem writeAll_lexEA (cs : List Bytes) (r : Rewriter γ) (hr : RLexEA w cert r
       · exact Or.inr (Or.inl (i2 x hx))
 
 /-- **`HtmlRewriter::end`** -/
-theorem rewriter_end_lexEA (r : Rewriter γ) (hr : RLexEA w cert rcert J r) :
+theorem rewriter_end_lexEA (r : Rewriter γ) (hr : RLexEA w cert rcert J Dk r) :
     (r.end w).2 = (r.end (w2)).2 ∨ (r.end w).2 = .panicUseAfterError ∨ ∃ e', GE G e' ∧ (r.end w).2 = .err e' := by
   unfold Rewriter.end
   by_cases hp : r.poisoned = true
@@ -277,7 +278,7 @@ theorem rewriter_end_lexEA (r : Rewriter γ) (hr : RLexEA w cert rcert J r) :
     exact Or.inl rfl
   · rw [if_neg hp, if_neg hp]
     dsimp only
-    rcases end_lexEA h ht hs0 hf r.stream (hr.resolve_left hp) with he | ⟨e', hGE, he⟩
+    rcases end_lexEA h ht hs0 hne hf r.stream (hr.resolve_left hp) with he | ⟨e', hGE, he⟩
     · rw [← he]
       exact Or.inl rfl
     · rw [he]
@@ -286,9 +287,9 @@ theorem rewriter_end_lexEA (r : Rewriter γ) (hr : RLexEA w cert rcert J r) :
 /-- **`write* ; end`**: every call of the first run answers like the same call of the second run, or with
 the documented panic after an error, or with an error of the class — the per-operation comparison of the two
 dispatchers being known for valid lexemes only. -/
-theorem run_lexEA (cs : List Bytes) (r : Rewriter γ) (hr : RLexEA w cert rcert J r) :
+theorem run_lexEA (cs : List Bytes) (r : Rewriter γ) (hr : RLexEA w cert rcert J Dk r) :
     ∀ x ∈ (Thm.C01.run w r cs).2, CallE G (Thm.C01.run (w2) r cs).2 x := by
-  obtain ⟨i1, i2⟩ := writeAll_lexEA h ht hs0 hf cs r hr
+  obtain ⟨i1, i2⟩ := writeAll_lexEA h ht hs0 hne hf cs r hr
   intro x hx
   unfold CallE
   simp only [Thm.C01.run, List.mem_append, List.mem_singleton] at hx ⊢
@@ -300,7 +301,7 @@ theorem run_lexEA (cs : List Bytes) (r : Rewriter γ) (hr : RLexEA w cert rcert 
   · subst hx
     rcases i1 with ⟨j1, j2⟩ | j
     · rw [← j1]
-      rcases rewriter_end_lexEA h ht hs0 hf _ j2 with k | k | k
+      rcases rewriter_end_lexEA h ht hs0 hne hf _ j2 with k | k | k
       · exact Or.inl (Or.inr k)
       · exact Or.inr (Or.inl k)
       · exact Or.inr (Or.inr k)
@@ -308,12 +309,12 @@ theorem run_lexEA (cs : List Bytes) (r : Rewriter γ) (hr : RLexEA w cert rcert 
       unfold Rewriter.end
       rw [if_pos j]
 
-omit hs0 hf in
+omit hs0 hne hf in
 /-- a fresh rewriter is the same over both controllers, and has both invariants if the initial flags are
 sticky and the fresh dispatcher has the sink invariant -/
 theorem new_lexEA (g : γ) (cfg : Settings) (hst : (w.ctl.initialFlags g).Sticky = true)
-    (hJ : J (Disp.new w.ctl g cfg.encoding)) :
-    Thm.C01.Rewriter.new w g cfg = Thm.C01.Rewriter.new (w2) g cfg ∧ RLexEA w cert rcert J (Thm.C01.Rewriter.new w g cfg) := by
+    (hJ : J (Disp.new w.ctl g cfg.encoding)) (hD : Dk (Disp.new w.ctl g cfg.encoding)) :
+    Thm.C01.Rewriter.new w g cfg = Thm.C01.Rewriter.new (w2) g cfg ∧ RLexEA w cert rcert J Dk (Thm.C01.Rewriter.new w g cfg) := by
   constructor
   · unfold Thm.C01.Rewriter.new Stream.new Disp.new
     show _ = ({ stream := _ } : Rewriter γ)
@@ -321,7 +322,7 @@ theorem new_lexEA (g : γ) (cfg : Settings) (hst : (w.ctl.initialFlags g).Sticky
     rw [h.initial g]
     rfl
   · right
-    refine ⟨?_, Stream.new_sargs ht g cfg⟩
+    refine ⟨?_, Stream.new_sargs ht g cfg hD⟩
     unfold Thm.C01.Rewriter.new PLex Stream.new
     dsimp only
     rw [Flags.Sticky.notEmpty hst]
